@@ -28,6 +28,11 @@ pub struct Fuse {
     pub once_completion: bool,
     /// a barrier arrival that will block has no choice point before it
     pub barrier_blocking_arrival: bool,
+    /// park/unpark as Shuttle implements them: a park that will block has no choice point before
+    /// it, and an unpark that finds its target parked wakes it directly *without* leaving a token, so
+    /// a second unpark before the woken thread runs stores a token of its own (std: both unparks can
+    /// collapse into the one token the thread consumes when it wakes)
+    pub park_handoff: bool,
 }
 
 impl Policy {
@@ -195,6 +200,7 @@ fn is_fused(op: &Op, pol: &Policy, s: &MState) -> bool {
             let MObj::Barrier { n, arrived, .. } = &s.objs[*b] else { unreachable!() };
             arrived.len() + 1 < *n
         }
+        Op::Park => pol.fuse.park_handoff,
         Op::DropTx(_) => pol.fuse.drop_tx,
         Op::DropRx(_) => pol.fuse.drop_rx,
         Op::IsCompleted(_) => pol.fuse.is_completed,
@@ -594,6 +600,12 @@ fn step_task(s: &MState, t: usize, p: &Prog, pol: &Policy) -> Step {
         Op::Unpark(c) => {
             if n.st[*c] == St::NotSpawned {
                 fin!(R_NOT_SPAWNED)
+            }
+            if pol.fuse.park_handoff && parked(&n, *c, p) {
+                // direct hand-off: the parked target's park completes here, no token is left
+                n.phase[*c] = 0;
+                let n2 = done(n, *c, R_OK, p, pol);
+                return Step::Next(vec![done(n2, t, R_OK, p, pol)]);
             }
             n.token[*c] = true;
             fin!(R_OK)
